@@ -110,9 +110,15 @@ SortEvents(S) ==
 Cap(v)  == IF v.b.cap = 0 THEN v.b.init + v.req ELSE v.b.cap
 SKey(x) == x.arr * (NS + 1) + x.st
 
+\* Pilots are stored in units of 1/PU ampere (PU = 1: whole amperes).  A configuration that wants
+\* non-integral pilots (7.5 A) overrides PU in its cfg (PU <- PU2) and chooses voltages/periods such
+\* that every pilot energy p*V*T/PU is a whole number of W*min (checked by PilotUnitsExact).
+PU == 1
+PilotEnergy(p, s) == (p * Volt[s] * T) \div PU
+
 \* The ideal battery law (Battery.charge): energy accepted in one period.
 Charge(i, p, s) ==
-    Min2(Min2(p * Volt[s] * T, sess[i].pw * T), sess[i].cap - chg[i])
+    Min2(Min2(PilotEnergy(p, s), sess[i].pw * T), sess[i].cap - chg[i])
 
 Connected(i, k) == sess[i].arr <= k /\ k < sess[i].dep
 LastTs == LET D == {sess[i].dep : i \in 1..Len(sess)} \cup recomp
@@ -155,7 +161,7 @@ Start(R, mr) ==
                 \cup {[kind |-> "Recompute", ts |-> r, id |-> 100 + r] : r \in R}
     /\ pc' = "Loop"
     /\ hist' = Log([a |-> "start", sess |-> sess, recomp |-> R, volt |-> Volt, T |-> T,
-                    mr |-> mr, ns |-> NS, vl |-> VL, menu |-> Menu])
+                    mr |-> mr, ns |-> NS, vl |-> VL, menu |-> Menu, pu |-> PU])
     /\ UNCHANGED <<sess, t, resolve, lastUpd, batch, occ, evsePilot, pilots, dE, evE, chg,
                    lastE, peakN, evHist, seen, schedHist, sigma, ghost>>
 
@@ -420,8 +426,11 @@ PeakIsMax ==
        /\ (peakN = 0 \/ \E k \in 0..H : agg(k) = peakN)
 RateBounds ==                       \* 0 <= rate <= pilot, power <= max, charge <= capacity
     /\ \A s \in Stations : \A k \in 0..(t-1) :
-          /\ 0 <= dE[s][k + 1] /\ dE[s][k + 1] <= pilots[s][k + 1] * Volt[s] * T
+          /\ 0 <= dE[s][k + 1] /\ dE[s][k + 1] <= PilotEnergy(pilots[s][k + 1], s)
     /\ \A i \in 1..N : sess[i].init <= chg[i] /\ chg[i] <= sess[i].cap
+
+PilotUnitsExact ==                  \* every pilot energy is a whole number of W*min
+    \A s \in Stations : \A k \in 0..H : (pilots[s][k + 1] * Volt[s] * T) % PU = 0
 
 \* ---- C04 ----  pilots recomputed from the submission log alone
 Covering(s, k) == {j \in 1..Len(subs) : subs[j][1] <= k /\ k < subs[j][1] + SLen(subs[j][2])}
